@@ -39,15 +39,19 @@ type genLine struct {
 	Prog   []Draw          `json:"prog"`
 	Paints json.RawMessage `json:"paints"`
 	Frame  [][]int         `json:"frame,omitempty"`
+	NZ     [][]int         `json:"nz,omitempty"`
 	Res    int             `json:"res,omitempty"`
+	Wpx    int             `json:"wpx,omitempty"`
+	Hpx    int             `json:"hpx,omitempty"`
+	Feat   map[string]bool `json:"feat,omitempty"`
 }
 
 func genCfg(mode string, plen, num int, frame bool) string {
-	s := fmt.Sprintf("CONSTANTS CW = %d\n CH = %d\n Mode = \"%s\"\n PLen = %d\n Num = %d\n Profile = \"c12\"\nCHECK_DEADLOCK FALSE\n", cw, ch, mode, plen, num)
+	s := fmt.Sprintf("CONSTANTS CW = %d\n CH = %d\n Mode = \"%s\"\n PLen = %d\n Num = %d\n Profile = \"c12\"\n", cw, ch, mode, plen, num)
 	if frame {
-		return "SPECIFICATION FSpec\n" + s + " FRes = 2\n FMode = \"prog\"\n"
+		return "SPECIFICATION FSpec\n" + s + " FRes = 2\n FMode = \"prog\"\nCHECK_DEADLOCK FALSE\n"
 	}
-	return "SPECIFICATION GSpec\n" + s
+	return "SPECIFICATION GSpec\n" + s + "CHECK_DEADLOCK FALSE\n"
 }
 
 func mcCfg(mode string, num int) string {
@@ -306,7 +310,7 @@ func (Driver) Replay(c *core.Ctx, raw json.RawMessage) []core.Mismatch {
 		return []core.Mismatch{{Signature: "machinery", Detail: fmt.Sprint("bad scenario: ", err)}}
 	}
 	if s.Be == "raster" {
-		return replayRaster(c, &s)
+		return ReplayRaster(raw, []int{0})
 	}
 	return check1(c, s.Hdr, s.Be, s.Prog)
 }
@@ -364,7 +368,7 @@ func (d Driver) Run(c *core.Ctx) error {
 
 	// 1. model level: the reference emitter's output conforms for every language (spec consistency), all single draws + pairs
 	c.TLC(tlc.Opts{Module: "GState", Config: mcCfg("mc", c.Pick(4, 12)), Seed: c.Seed, Coverage: c.Thorough()}, true)
-	c.TLC(tlc.Opts{Module: "GState", Config: mcCfg("mcfull", c.Pick(400, 6000)), Seed: c.Seed}, true)
+	c.TLC(tlc.Opts{Module: "GState", Config: mcCfg("mcfull", c.Pick(250, 6000)), Seed: c.Seed}, true)
 
 	lap("model")
 	// 2. generate programs (with the painter's-order frame for the rasterizer tie-in)
@@ -385,12 +389,25 @@ func (d Driver) Run(c *core.Ctx) error {
 		}
 		c.TLC(o, true)
 	}
-	collect(tlc.Opts{Module: "GState", Config: genCfg("sub2", 0, 0, false)})
-	collect(tlc.Opts{Module: "GState", Config: genCfg("rand", 3, c.Pick(1200, 40000), false), Seed: c.Seed})
-	collect(tlc.Opts{Module: "GState", Config: genCfg("rand", 4, c.Pick(600, 30000), false), Seed: c.Seed + 1})
-	if c.Thorough() {
-		collect(tlc.Opts{Module: "GState", Config: genCfg("sub2big", 0, 0, false)})
+	gens := []tlc.Opts{
+		{Module: "GState", Config: genCfg("sub2", 0, 0, false)},
+		{Module: "GState", Config: genCfg("rand", 3, c.Pick(1200, 20000), false), Seed: c.Seed},
+		{Module: "GState", Config: genCfg("rand", 4, c.Pick(600, 12000), false), Seed: c.Seed + 1},
+		// programs with the painter's-order frame (all four renderers are tied to these)
+		{Module: "Raster", Config: genCfg("rand", 2, c.Pick(250, 3000), true), Seed: c.Seed + 2},
+		{Module: "Raster", Config: genCfg("rand", 3, c.Pick(150, 3000), true), Seed: c.Seed + 3},
 	}
+	if c.Thorough() {
+		gens = append(gens, tlc.Opts{Module: "GState", Config: genCfg("sub2big", 0, 0, false)})
+	}
+	gch := make(chan tlc.Opts, len(gens))
+	for _, g := range gens {
+		g.Workers = 5
+		g.Timeout = 30 * time.Minute
+		gch <- g
+	}
+	close(gch)
+	core.Parallel(3, gch, collect)
 	if len(progs) == 0 {
 		return fmt.Errorf("generator produced no programs")
 	}
@@ -431,7 +448,10 @@ func (d Driver) Run(c *core.Ctx) error {
 
 	lap("generate")
 	// 3. render + lex (parallel), chunked traces
-	nChunks := 12
+	nChunks := 10
+	if n := len(progs) / 2500; n > nChunks {
+		nChunks = n
+	}
 	chunks := make([]bytes.Buffer, nChunks+1)
 	chunkMu := make([]sync.Mutex, nChunks)
 	var nEvents, nTraces int64
@@ -532,7 +552,7 @@ func (d Driver) Run(c *core.Ctx) error {
 		cidx <- i
 	}
 	close(cidx)
-	core.Parallel(6, cidx, func(ci int) {
+	core.Parallel(10, cidx, func(ci int) {
 		if chunks[ci].Len() == 0 {
 			return
 		}
@@ -566,7 +586,7 @@ func (d Driver) Run(c *core.Ctx) error {
 		sch <- sg
 	}
 	close(sch)
-	core.Parallel(8, sch, func(sig string) {
+	core.Parallel(12, sch, func(sig string) {
 		r := first[sig]
 		ms := check1(c, h, r.E.Be, progs[r.E.Pid/3].Prog)
 		for _, m := range ms {
